@@ -35,6 +35,8 @@ GATES = {
     "tail_call_other_calls": "tail_call_optimization on a function whose last statement is a call and that also contains other calls or returns: ra is not saved / the end label has no `j ra`",
     "inline_arg_alias": "inlined call whose argument is a bare variable that the callee modifies through `global`: the parameter is aliased to the variable's register",
     "const_test": "if/while test that folds to a constant while its body contains break",
+    "for_var_after_loop": "the target of a for-range loop read after the loop (holds the first value past the range); never generated",
+    "chained_comparison": "chained comparison `a < b < c` (only the first comparison is compiled); never generated",
 }
 
 LOGIC_RW = ["Setting", "On", "Mode", "Open", "Lock", "Activate"]
